@@ -49,6 +49,7 @@ UNIT = {
         af('expand32to64', C, loops=1, fires={'R1': 1}), af('shrink64to32', C, loops=1, fires={'R1': 1}),
         lf('get'), lf('set'), lf('swap'),
     ],
+    'replay_sources': ['src/error.cc', 'src/arrays.cc', 'src/io.cc'],
     'stubs': [
         'array_watcher::expandElementSize/shrinkElementSize(old,new): virtual notification hook; assumed to assign nothing visible to the arrays',
     ],
